@@ -46,6 +46,7 @@ func main() {
 	r.Register("h", func(a []string) string { return runCase(a, false) })
 	r.Register("hl", func(a []string) string { return runCase(a, true) })
 	r.Register("hw", func(a []string) string { return runCallerWrites(a) })
+	r.Register("off", func(a []string) string { return offsetsTable() })
 	r.Register("hm", func(a []string) string { return runMalformedCase(a) })
 	r.Register("k6", func(a []string) string { return runHuntCase(a) })
 	r.Register("ka", func(a []string) string { return runHunt4Case(a) })
@@ -53,6 +54,7 @@ func main() {
 		return
 	}
 	checkCensus(r)
+	r.Do("off", "-")
 	if os.Getenv("C10_CENSUS_ONLY") != "" {
 		return
 	}
@@ -195,3 +197,24 @@ func runCallerWrites(a []string) string {
 
 var osGetenv = os.Getenv
 var osStderr = os.Stderr
+
+// offsetsTable: where the library's own getters read the fields the model reads at fixed positions, measured on a
+// pattern frame (byte i = i): the first byte of what a getter returns is its offset in the frame.
+func offsetsTable() string {
+	f := make([]byte, 400)
+	for i := range f {
+		f[i] = byte(i)
+	}
+	eth := packet.Ether(f)
+	ip4 := packet.IP4(f[14:])
+	ip6 := packet.IP6(f[14:])
+	arp := packet.ARP(f[14:])
+	dh := packet.DHCP4(f[42:])
+	s4 := ip4.Src().As4()
+	s6 := ip6.Src().As16()
+	as := arp.SrcIP().As4()
+	l := func(n string, off byte, ln int) string { return fmt.Sprintf("%s=%d.%d", n, off, ln) }
+	return strings.Join([]string{l("ethsrc", eth.Src()[0], len(eth.Src())), l("ip4src", s4[0], 4), l("ip6src", s6[0], 16),
+		l("arpsha", arp.SrcMAC()[0], len(arp.SrcMAC())), l("arpspa", as[0], 4),
+		l("dhcpxid", dh.XId()[0], len(dh.XId())), l("dhcpchaddr", dh.CHAddr()[0], len(dh.CHAddr()))}, " ")
+}
